@@ -27,6 +27,17 @@ def main(argv=None):
     except Exception as e:
         traceback.print_exc()
         ck.broken(pid + '.internal', 'internal-error', '', '%s: %s' % (type(e).__name__, e))
+    if a.tier == 'thorough' and not os.environ.get('UFWSA_NO_CORPUS'):
+        from . import corpus
+        res = corpus.run_all([pid])
+        ck.rule(pid + '.corpus', 'checker validation: every corpus mutant of this property is reported, every behaviour-preserving rewrite stays silent (scratch copies)')
+        for r in res:
+            if r['outcome'] in ('caught', 'silent'):
+                ck.holds(pid + '.corpus', 'corpus:' + r['id'], r['patch'], '%s (%s)' % (r['outcome'], r.get('note', '')))
+            elif r['outcome'] == 'patch-does-not-apply':
+                ck.notes.append('corpus entry %s no longer applies' % r['id'])
+            else:
+                ck.broken(pid + '.corpus', 'corpus:' + r['id'], r['patch'], 'CHECKER-REGRESSION %s: %s' % (r['outcome'], r.get('detail', '')))
     return ck.finish()
 
 
